@@ -88,42 +88,42 @@ pub fn c02_uriref_n12() {
     uriref_body::<12>()
 }
 
-// @h prop=C02,C20 tier=thorough kind=check timeout=2400 bound="UriRef text <= 16 bytes" encodes="same functions as c02_uriref_n12"
+// @h prop=C02,C20:thorough tier=thorough kind=check timeout=2400 bound="UriRef text <= 16 bytes" encodes="same functions as c02_uriref_n12"
 #[cfg_attr(kani, kani::proof)]
 #[cfg_attr(kani, kani::unwind(18))]
 pub fn c02_uriref_n16() {
     uriref_body::<16>()
 }
 
-// @h prop=C02,C20 tier=quick kind=check bound="Uri text <= 10 bytes" encodes="parse::{scheme,parts,authority_or_path,path,query,fragment,find_authority,find_path,find_query,find_fragment};RiImpl::scheme;Uri::parts"
+// @h prop=C02,C20:thorough tier=quick kind=check bound="Uri text <= 10 bytes" encodes="parse::{scheme,parts,authority_or_path,path,query,fragment,find_authority,find_path,find_query,find_fragment};RiImpl::scheme;Uri::parts"
 #[cfg_attr(kani, kani::proof)]
 #[cfg_attr(kani, kani::unwind(12))]
 pub fn c02_uri_n10() {
     uri_body::<10>()
 }
 
-// @h prop=C02,C20 tier=thorough kind=check timeout=2400 bound="Uri text <= 16 bytes" encodes="same functions as c02_uri_n10"
+// @h prop=C02,C20:thorough tier=thorough kind=check timeout=2400 bound="Uri text <= 16 bytes" encodes="same functions as c02_uri_n10"
 #[cfg_attr(kani, kani::proof)]
 #[cfg_attr(kani, kani::unwind(18))]
 pub fn c02_uri_n16() {
     uri_body::<16>()
 }
 
-// @h prop=C02,C20 tier=quick kind=check bound="IriRef text <= 10 bytes (UTF-8, incl. 2-4 byte scalars)" encodes="same parse::* functions via RiRefImpl for IriRef;IriRef::parts"
+// @h prop=C02,C20:thorough tier=quick kind=check bound="IriRef text <= 10 bytes (UTF-8, incl. 2-4 byte scalars)" encodes="same parse::* functions via RiRefImpl for IriRef;IriRef::parts"
 #[cfg_attr(kani, kani::proof)]
 #[cfg_attr(kani, kani::unwind(12))]
 pub fn c02_iriref_n10() {
     iriref_body::<10>()
 }
 
-// @h prop=C02,C20 tier=thorough kind=check timeout=2400 bound="IriRef text <= 14 bytes" encodes="same as c02_iriref_n10"
+// @h prop=C02,C20:thorough tier=thorough kind=check timeout=2400 bound="IriRef text <= 14 bytes" encodes="same as c02_iriref_n10"
 #[cfg_attr(kani, kani::proof)]
 #[cfg_attr(kani, kani::unwind(16))]
 pub fn c02_iriref_n14() {
     iriref_body::<14>()
 }
 
-// @h prop=C02,C20 tier=quick kind=check bound="Iri text <= 8 bytes" encodes="parse::{scheme,parts} via RiImpl for Iri;Iri::parts"
+// @h prop=C02,C20:thorough tier=quick kind=check bound="Iri text <= 8 bytes" encodes="parse::{scheme,parts} via RiImpl for Iri;Iri::parts"
 #[cfg_attr(kani, kani::proof)]
 #[cfg_attr(kani, kani::unwind(10))]
 pub fn c02_iri_n8() {
